@@ -11,13 +11,16 @@ from .mir import Place
 from .rtypes import parse_type, strip_generics, turbofish_args, canon_callee, INT
 from .values import *
 
+NOKEEP = bool(os.environ.get('VERIF_NOKEEP'))   # debugging only: reproduce the pre-keep-alive behaviour
+FORKLOG = bool(os.environ.get('VERIF_FORKLOG'))
 TRACE = int(os.environ.get('MIRSYM_TRACE', '0'))
 
 
 class Fork(Exception):
-    def __init__(self, n, key=None):
+    def __init__(self, n, key=None, keep=None):
         self.n = n
         self.key = key
+        self.keep = keep      # z3 terms whose ids the key mentions: kept alive so that re-execution rebuilds the same hash-consed AST
 
 
 class Infeasible(Exception):
@@ -215,10 +218,12 @@ class State:
         r.msg = self.msg
         r.steps = self.steps
         r.maxlen_default = self.maxlen_default
+        if FORKLOG:
+            r.forklog = getattr(self, 'forklog', ())
         return r
 
     # ---- choice / constraints
-    def choose(self, n, label='', key=None):
+    def choose(self, n, label='', key=None, keep=None):
         """index in 0..n-1.  Choices are keyed (not positional): a step is re-executed after a fork, and on the
         re-run an earlier choice may already be persisted in the state (forced shape, assumed constraint) and not
         be asked again - positional replay would then hand its value to the wrong question."""
@@ -230,7 +235,7 @@ class State:
             key = ('lbl', label, k)
         if key in self.choices:
             return self.choices[key]
-        raise Fork(n, key)
+        raise Fork(n, key, keep)
 
     def assume(self, c):
         c = z3.simplify(c) if not isinstance(c, bool) else z3.BoolVal(c)
@@ -271,7 +276,7 @@ class State:
         f = self.feasible(z3.Not(cond))
         if not f:
             return True
-        i = self.choose(2, label, key=('br', cond.get_id()))
+        i = self.choose(2, label, key=('br', cond.get_id()), keep=cond)
         if i == 0:
             self.assume(cond)
             return True
@@ -286,7 +291,7 @@ class State:
         cands = [c for c in range(lo, hi + 1) if self.feasible(e == c)]
         if not cands:
             raise Infeasible()
-        i = self.choose(len(cands), label, key=('conc', e.get_id()))
+        i = self.choose(len(cands), label, key=('conc', e.get_id()), keep=e)
         self.assume(e == cands[i])
         return cands[i]
 
@@ -549,6 +554,12 @@ class Executor:
                 results.append(PathResult('error', st, msg='max_paths exceeded'))
                 break
         self.stats['paths'] += len(results)
+        seen = set()
+        for r in results:
+            k = (r.status, tuple(c.get_id() for c in r.st.pc))
+            if k in seen:
+                self.stats['dup_paths'] = self.stats.get('dup_paths', 0) + 1
+            seen.add(k)
         return results
 
     def _run_path(self, st, work, results):
@@ -564,6 +575,7 @@ class Executor:
             try:
                 self.step(st)
                 st.choices = {}
+                st.keep = ()
                 st.steps += 1
                 self.stats['steps'] += 1
             except Fork as fk:
@@ -574,6 +586,10 @@ class Executor:
                     s2 = src.clone()
                     s2.choices = dict(base)
                     s2.choices[fk.key] = i
+                    if not NOKEEP:
+                        s2.keep = getattr(st, 'keep', ()) + (fk.keep,)
+                    if FORKLOG:
+                        s2.forklog = getattr(src, 'forklog', ()) + ((self._where(src), str(fk.key)[:80], i),)
                     work.append(s2)
                 return
             except Infeasible:
@@ -692,6 +708,13 @@ class Executor:
             else:
                 raise Unsupported('projection ' + k)
         return cur
+
+    @staticmethod
+    def _drop_bufw(v):
+        from .models_fs import BufW, file_write
+        if isinstance(v, BufW) and v.buf:
+            file_write(v.h, v.buf)
+            v.buf = []
 
     def _as_seq(self, st, v):
         if isinstance(v, (Seq, SeqView)):
@@ -1116,6 +1139,10 @@ class Executor:
             if not t[1].proj and t[1].local in fr.locals:
                 from .models_std import release
                 release(st, fr.locals[t[1].local])
+                self._drop_bufw(fr.locals[t[1].local])
+            elif t[1].proj and t[1].proj[-1][0] == 'field' and 'BufWriter' in str(t[1].proj[-1][2]):
+                # `self.file = BufWriter::new(..)` drops the old writer first: BufWriter's Drop flushes what is buffered
+                self._drop_bufw(self.read(st, fr, t[1]))
             return self.goto(st, fr, t[2])
         if k == 'assert':
             c = self.operand(st, fr, t[1])
@@ -1166,7 +1193,7 @@ class Executor:
         feas = [(c, bb) for c, bb in alts if st.feasible(c)]
         if not feas:
             raise Infeasible()
-        i = st.choose(len(feas), 'switch', key=('sw',) + tuple(c.get_id() for c, _ in feas))
+        i = st.choose(len(feas), 'switch', key=('sw',) + tuple(c.get_id() for c, _ in feas), keep=[c for c, _ in feas])
         st.assume(feas[i][0])
         return self.goto(st, fr, feas[i][1])
 
